@@ -100,6 +100,17 @@ LeavesOf(fam) ==
                                                  Obj(<<Prop("kind", LS("y"), FALSE), Prop("b", TNumber, FALSE)>>, <<>>)>>), FALSE),
                                 Prop("u2", Uni(<<Obj(<<Prop("kind", LS("x"), FALSE), Prop("BB", TString, FALSE)>>, <<>>),
                                                  Obj(<<Prop("kind", LS("y"), FALSE), Prop("b", TNumber, FALSE)>>, <<>>)>>), FALSE)>>, <<>>),
+                          \* the same named type at the same position of two members of a union that is tried member by member, in both
+                          \* orders; in both members of an intersection of unions; next to an intersection with itself: whatever the
+                          \* runtime remembers about (named type, value) while one member fails must not leak into the next member
+                          Uni(<<Obj(<<Prop("at", Ref("Pt"), FALSE), Prop("radius", TNumber, FALSE)>>, <<>>),
+                                Obj(<<Prop("at", Ref("Pt"), FALSE), Prop("label", TString, FALSE)>>, <<>>)>>),
+                          Uni(<<Obj(<<Prop("at", Ref("Pt"), FALSE), Prop("zlabel", TString, FALSE)>>, <<>>),
+                                Obj(<<Prop("at", Ref("Pt"), FALSE), Prop("aradius", TNumber, FALSE)>>, <<>>)>>),
+                          Inter(<<Uni(<<Ref("Ct"), Ref("Dg")>>), Uni(<<Ref("Ct"), Obj(<<Prop("hoot", TString, FALSE)>>, <<>>)>>)>>),
+                          Inter(<<Uni(<<Ref("Dg"), Ref("Ct")>>), Uni(<<Obj(<<Prop("hoot", TString, FALSE)>>, <<>>), Ref("Dg")>>)>>),
+                          Uni(<<Ref("Pt"), Inter(<<Ref("Pt"), Obj(<<Prop("name", TString, FALSE)>>, <<>>)>>)>>),
+                          Obj(<<Prop("first", Uni(<<Ref("Ct"), Ref("Dg")>>), FALSE), Prop("second", Uni(<<Ref("Dg"), Ref("Ct")>>), FALSE)>>, <<>>),
                           \* named intersection members that declare the same property with types differing only in depth
                           Inter(<<Ref("Ma"), Ref("Mb")>>), Inter(<<Ref("Mb"), Ref("Ma")>>),
                           \* (members are emitted in the order of their names: here the wider declaration comes first)
@@ -171,7 +182,11 @@ PresetEnv ==
     [n |-> "__proto__", kind |-> "type", ty |-> Obj(<<Prop("x", TString, FALSE)>>, <<>>)],
     [n |-> "Ush",  kind |-> "type", ty |-> Uni(<<Obj(<<Prop("b", TString, FALSE)>>, <<>>), Obj(<<Prop("c", TString, FALSE)>>, <<>>)>>)],
     [n |-> "Kb",   kind |-> "type", ty |-> Obj(<<Prop("id", TString, FALSE),
-                                                 Prop("meta", Obj(<<Prop("kind", Uni(<<LS("p"), LS("q")>>), FALSE)>>, <<>>), FALSE)>>, <<>>)] >>
+                                                 Prop("meta", Obj(<<Prop("kind", Uni(<<LS("p"), LS("q")>>), FALSE)>>, <<>>), FALSE)>>, <<>>)],
+    \* named types that several members of one (not discriminated) union / intersection mention at the same position
+    [n |-> "Pt",   kind |-> "type", ty |-> Obj(<<Prop("x", TNumber, FALSE), Prop("y", TNumber, FALSE)>>, <<>>)],
+    [n |-> "Ct",   kind |-> "type", ty |-> Obj(<<Prop("meow", TString, FALSE)>>, <<>>)],
+    [n |-> "Dg",   kind |-> "type", ty |-> Obj(<<Prop("bark", TString, FALSE), Prop("legs", TNumber, TRUE)>>, <<>>)] >>
   ELSE <<>>
 
 \* in the describe family the second declaration takes the name describe() gives the root alias (Codec + parser key)
